@@ -662,6 +662,72 @@ func combineLikeServer(protos []string) (string, error) {
 	return sb.String(), nil
 }
 
+// runStoreOnceNodeIDs: the listener over the library's own store-once back end (the NodeIdLoader it ships), two
+// registered nodes whose records sit under node IDs that differ only in letter case or by padding. A client is
+// authenticated under a named node ID only if a record under exactly that ID holds the key that signed the nonce.
+func runStoreOnceNodeIDs(c *engine.Ctx, wrap bool) {
+	r := c.R
+	s := world.MustServer(world.ServerCfg{Backend: world.StoreOnce, StorageWrap: wrap})
+	defer s.Close()
+	ids := []string{"worker-alpha", "WORKER-ALPHA"}
+	var nodes []*world.Node
+	for _, id := range ids {
+		er, err := world.Enroll(s, world.FlowAuthorize, false, nil, nil, nil)
+		if err != nil {
+			r.Broken("store-once node ids: enroll: " + err.Error())
+			return
+		}
+		ni, err := types.LoadNodeInformation(s.Ctx, s.Inner, er.Node.K.KeyID, s.StoreOpts()...)
+		if err != nil {
+			r.Broken("store-once node ids: load: " + err.Error())
+			return
+		}
+		_ = s.RemoveNode(er.Node.K.KeyID)
+		ni.NodeId = id
+		if err := ni.Store(s.Ctx, s.Store, s.StoreOpts()...); err != nil {
+			r.Broken("store-once node ids: store: " + err.Error())
+			return
+		}
+		nodes = append(nodes, er.Node)
+	}
+	lw, err := world.NewLW(s, world.LWCfg{})
+	if err != nil {
+		r.Broken(err.Error())
+		return
+	}
+	defer lw.Close()
+	roots, _ := s.Roots()
+	curID, _ := nodeenrollment.KeyIdFromPkix(roots.Current.PublicKeyPkix)
+	for who, n := range nodes {
+		for _, named := range []string{"", ids[who], ids[1-who], ids[who] + " ", " " + ids[who], "worker-Alpha", "worker-alph", "worker-alpha-2"} {
+			nonce := world.RandBytes(nodeenrollment.NonceSize)
+			req := &types.GenerateServerCertificatesRequest{CertificatePublicKeyPkix: n.K.Pkix, Nonce: nonce, NonceSignature: ed25519.Sign(n.K.Priv, nonce), NodeId: named}
+			b := n.Creds.CertificateBundles[0]
+			cs := world.ClientSpec{Protos: append(world.AuthProtos(req), world.CertPref(curID)), Chain: [][]byte{b.CertificateDer, b.CaCertificateDer}, Signer: n.K.Priv}
+			rec, cres, ok := runClient(c, lw, cs)
+			if !ok {
+				continue
+			}
+			ac := advCase{Kind: "storeonce-nodeid", Storage: world.StoreOnce, Hint: named, Identity: ids[who]}
+			r.Eval(engine.J(ac), true)
+			may := named == "" || named == ids[who]
+			switch {
+			case rec.Panic != nil:
+				r.Violation("panic-in-accept:"+engine.LibraryFrame(rec.Stack), fmt.Sprintf("Accept panicked: %v", rec.Panic), ac)
+			case rec.Authenticated() && !may:
+				r.Violation("unauthorized-auth:no-record-under-the-named-node-id", fmt.Sprintf("the node registered under %q was authenticated while naming node ID %q: no record under that ID holds its key", ids[who], named), ac)
+			case rec.Authenticated():
+				r.Count("storeonce_nodeid:authenticated_under_own_id_or_key_id", 1)
+			case may:
+				r.Count("storeonce_nodeid:honest_rejected(not asserted)", 1)
+			default:
+				r.Count("storeonce_nodeid:foreign_or_near_miss_id_rejected", 1)
+			}
+			finishConn(rec, cres)
+		}
+	}
+}
+
 // ---------------------------------------------------------------------------
 // register / remove / connect sequences
 
@@ -725,7 +791,18 @@ func runSeq(c *engine.Ctx, ac advCase) {
 			}
 			st.registered, st.everHad = true, true
 		case 'X':
-			if st.registered {
+			if st.registered && step%2 == 1 {
+				// the operator's removal runs under a context that is already done (a request that timed
+				// out): the node counts as removed exactly when storage said so
+				dctx, cancel := context.WithCancel(s.Ctx)
+				cancel()
+				if err := s.Store.Remove(dctx, &types.NodeInformation{Id: st.n.K.KeyID}); err == nil {
+					st.registered = false
+					c.R.Count("seq_removal_under_done_context_reported_success", 1)
+				} else {
+					c.R.Count("seq_removal_under_done_context_reported_error", 1)
+				}
+			} else if st.registered {
 				_ = s.RemoveNode(st.n.K.KeyID)
 				st.registered = false
 			}
@@ -1119,6 +1196,11 @@ func runTLSAdv(c *engine.Ctx) engine.Result {
 		engine.ForEach(len(cs), workers, func(i int) { runReinit(c, cs[i]) })
 	}
 
+	// ---- node IDs on the library's own store-once back end ---------------------
+	for i := 0; i < c.Pick(2, 8); i++ {
+		runStoreOnceNodeIDs(c, i%2 == 1)
+	}
+
 	// ---- clients that do not speak the library protocols -------------------
 	{
 		w := newAdvWorld("normal", world.Inmem)
@@ -1150,6 +1232,8 @@ func runTLSAdv(c *engine.Ctx) engine.Result {
 	r.Require("other_servers_roots_rejected", 4)
 	r.Require("mixed_prefix_lists:fetch-first", 10)
 	r.Require("mixed_prefix_lists:auth-first", 10)
+	r.Require("storeonce_nodeid:authenticated_under_own_id_or_key_id", 6)
+	r.Require("storeonce_nodeid:foreign_or_near_miss_id_rejected", 20)
 	if n := r.Counter("positive_control_REJECTED"); n > 0 {
 		r.Inconclusive(fmt.Sprintf("%d fully honest clients were rejected: the authentication path is not functional, so 'only registered nodes authenticate' cannot be judged", n))
 	}
